@@ -38,6 +38,10 @@ def parseSigmas (s : String) : R (List (List Nat)) := if s == "-" then pure [] e
 /-- `sharded <K> <P> <perm> <stranded> <thr> <prune> <reads>` -/
 def handle (args : List String) (impl : String) : R Ans :=
   match args with
+  | "bigrep" :: _ =>
+    -- a repeat longer than 2^16 bases: sharded against direct assembly, implementation against implementation (the statement of
+    -- C04 itself; the executable model is not consulted at this size)
+    pure { model := impl, verdict := if impl.startsWith "same=1" then "ok" else s!"FAIL:sharded-and-direct-assembly-differ({impl})" }
   | ["sharded", k, p, perm, st, thr, prune, reads] => do
     let K ← nat k; let P ← nat p; let st ← bool st; let thr ← nat thr; let prune ← bool prune
     let perm ← if perm == "default" then pure none else do pure (some (← natList perm).toArray)
